@@ -32,6 +32,19 @@ def _half_discount(env: Any) -> Any:
     return HalfDiscount(env)
 
 
+def _zero_discount(env: Any) -> Any:
+    """the environment with every discount set to 0 (in-contract: inside [0, 1]): a MID step with discount 0 is `terminated` for gym
+    ("terminated exactly when the native discount is zero") although the native step is not LAST"""
+    from jumanji.wrappers import Wrapper
+
+    class ZeroDiscount(Wrapper):
+        def step(self, state, action):
+            state, ts = self._env.step(state, action)
+            return state, ts.replace(discount=ts.discount * 0.0)
+
+    return ZeroDiscount(env)
+
+
 def run(ctx: Ctx, extended: bool = False) -> None:
     import dm_env
     import jax
@@ -165,6 +178,8 @@ def run(ctx: Ctx, extended: bool = False) -> None:
             frac_envs.append(("mean_discount", MultiToSingleWrapper(base, reward_aggregator=jnp.sum, discount_aggregator=jnp.mean)))
         if (not ctx.quick) or extended or multi or (sum(map(ord, e.cid)) + ctx.seed) % 2 == 0:
             frac_envs.append(("half_discount", _half_discount(env)))
+        if (not ctx.quick) or extended or multi or (sum(map(ord, e.cid)) + ctx.seed) % 2 == 1:
+            frac_envs.append(("zero_discount", _zero_discount(env)))
         for fname, fenv in frac_envs:
             fg = JumanjiToGymWrapper(fenv, seed=seed + 3)
             fstep, freset = jax.jit(fenv.step), jax.jit(fenv.reset)
@@ -181,6 +196,8 @@ def run(ctx: Ctx, extended: bool = False) -> None:
                 ctx.nontrivial.add((e.cid, fname, i, disc))
                 if 0.0 < disc < 1.0:
                     ctx.count("gym_fractional_discount_steps")
+                if disc == 0.0 and int(fts.step_type) != 2:
+                    ctx.count("gym_zero_discount_mid_steps")
                 fm = drv.call("wrappers.gym_run", seed=seed + 3, ops=["reset", {"step": {"step_type": int(fts.step_type), "reward": rat(float(fts.reward)), "discount": rat(disc)}}])[1]
                 if fm["terminated"] != term or fm["truncated"] != trunc:
                     ctx.fail(e.cid, "gym_flags", f"[{fname}] gym flags (terminated={term}, truncated={trunc}) but the model of the adapter prescribes {fm} for native discount {disc}", {**info, "variant": fname, "step": i})
